@@ -300,6 +300,11 @@ def native_confirm(native, case):
         got = r['ok']['bytes']
         want = ref_bytes([(e[0], e[1]) for e in case['events']])
         case['native_bytes'] = got
+        if 'kernel_code' in case:
+            code = got[18] | (got[19] << 8) if len(got) >= 24 else None
+            if code != case['kernel_code']:
+                return True, 'key %s is written with code %r, the kernel\'s %s is %d' % (case['key'], code, case['kernel_name'], case['kernel_code'])
+            return False, 'native code equals the kernel table'
         if got != want:
             return True, 'events %r were written as %r, expected %r' % (case['events'], _recs(got), _recs(want))
         # decode with the tool's own reader
@@ -349,6 +354,21 @@ def check(prop, tier, seed):
     # round trip: reader(writer(batch)) on symbolic batches
     rt = run_roundtrip(prog, 2 if quick else 3, stats)
     viols += rt
+    # the key's *kernel* code: the KeyCode discriminants (from the sources, cross-checked with the MIR constants) against
+    # linux/input-event-codes.h (copy in mirsym/kernel_keycodes.json)
+    import re as _re
+    kt = json.load(open(os.path.join(os.path.dirname(os.path.abspath(__file__)), 'kernel_keycodes.json')))
+    kernel_checked = 0
+    kernel_unknown = []
+    for nm, v in sorted(mapper.KC.items()):
+        kn = 'KEY_' + (nm[1:] if _re.match(r'K\d', nm) else nm)
+        if kn not in kt:
+            kernel_unknown.append(nm)
+            continue
+        kernel_checked += 1
+        if kt[kn] != v:
+            viols.append(('the code written for a key is not the kernel\'s code for it', {'key': nm, 'written': v, 'kernel': kt[kn]},
+                          {'kind': 'uinput_write', 'events': [['P', v]], 'kernel_name': kn, 'kernel_code': kt[kn], 'key': nm}))
     native = Native()
     ping = native.ask({'kind': 'ping'})
     if ping.get('ok', {}).get('input_event_size') != 24:
@@ -394,6 +414,7 @@ def check(prop, tier, seed):
         'solver': {'validity queries discharged': stats['queries'], 'z3 checks total': stats['z3_checks']},
         'from_primitive_summary': {'concrete_runs_of_derived_from_u64_and_from_i64': runs, 'secs': round(secs, 1),
                                    'statement': 'from_*(n) = Some(k), k as i32 == n, exactly for the valid discriminants (exhaustive over the 16-bit code range); used as a summary for symbolic codes'},
+        'kernel_code_table': {'keys_compared_with_linux_input_event_codes_h': kernel_checked, 'keys_not_in_the_header': kernel_unknown},
         'traces_validated_against_impl': validated,
         'functions_encoded': ['DevInputWriter::send (+ closure)', 'StructSerializer::add_i64/add_u16/add_i32', 'DevInputReader::next', 'derived FromPrimitive for KeyCode'],
         'stubs': ['nix::unistd::write (captures the buffer)', 'nix::unistd::read (serves symbolic 24-byte records, then EAGAIN)', 'size_of::<input_event>() = 24 (checked natively)'],
